@@ -259,7 +259,31 @@ pub fn cont_jvalue() {
 #[cfg(kani)]
 pub fn cont_jvalue() {}
 
+/// zero-sized element types -- `()` (Null only) and PhantomData (reads nothing, never reports) -- in Vec / HashSet / BTreeSet:
+/// a container that sizes or skips its work by the element type's size cannot hide behind the Leaf / u8 elements of the other harnesses
+pub fn cont_zst() {
+    reset_all(&D_CONT);
+    let len = nd::below(4); let mut i = 0; while i < len { put(i, match nd::below(3) { 0 => Node::Null, 1 => Node::Int(1), _ => Node::Bool(true) }); i += 1; }
+    let n = Node::Seq(0, len);
+    let o = ValuePointerRef::Origin; let l = o.push_index(1); let p = Path::ROOT.idx(1);
+    let mut ex = Expect::EMPTY;
+    i = 0; while i < len { match arena::node(i) { Node::Null => {} other => { ex.log.push(kind_report(p.idx(i as usize), other, 1, 1)); ex.log.push(handover(p.idx(i as usize))); } } i += 1; }
+    macro_rules! go { ($t:ty, $want:expr) => {{
+        rec::reset();
+        let r = <$t as Deserr<Rec>>::deserialize_from_value::<KV>(to_value(n), l);
+        match r { Ok(c) => { oblige!(ex.log.n == 0, "C01,C02:ok_only_if_the_payload_has_no_fault"); oblige!(c.len() == $want, "C06:nothing_dropped_nothing_invented"); oblige!(rec::calls() == 0, "C01:ok_only_if_nothing_reported"); }
+                  Err(e) => { oblige!(ex.log.n > 0 && e.same(&rec::global()) && agree_until_stop(&e, &ex.log) && (!no_stop(&e) || e.n == ex.log.n) && stop_then_handover(&e) && stop_then_handover(&rec::global()), "C01,C02,C03,C04:zst_element_reports"); } }
+    }}; }
+    go!(Vec<()>, len as usize);
+    go!(HashSet<()>, if len == 0 { 0 } else { 1 });
+    go!(BTreeSet<()>, if len == 0 { 0 } else { 1 });
+    rec::reset();
+    let r = <Vec<std::marker::PhantomData<u8>> as Deserr<Rec>>::deserialize_from_value::<KV>(to_value(n), l);
+    oblige!(matches!(&r, Ok(v) if v.len() == len as usize), "C06:nothing_dropped_nothing_invented");
+    oblige!(rec::calls() == 0, "C01:ok_only_if_nothing_reported");
+}
+
 pub fn registry() -> Vec<(&'static str, crate::Body)> {
     vec![("cont_vec", cont_vec as crate::Body), ("cont_array2", cont_array2), ("cont_tuple2", cont_tuple2), ("cont_tuple3", cont_tuple3),
-         ("cont_option_box", cont_option_box), ("cont_sets", cont_sets), ("cont_maps", cont_maps), ("order_maps_3", order_maps_3), ("cont_cs", cont_cs), ("cont_jvalue", cont_jvalue)]
+         ("cont_option_box", cont_option_box), ("cont_sets", cont_sets), ("cont_maps", cont_maps), ("order_maps_3", order_maps_3), ("cont_cs", cont_cs), ("cont_jvalue", cont_jvalue), ("cont_zst", cont_zst)]
 }
